@@ -35,6 +35,10 @@ type c5Gen struct {
 	RotRefs []string `json:"rotrefs,omitempty"`
 	// FmtLocal: a reference into the main module (import grouping depends on the module path the formatter is told)
 	FmtLocal string `json:"fmtlocal,omitempty"`
+	// Quiet: package dirs for whose types this generator renders nothing; Ignore: package dirs where it returns ErrIgnore for
+	// the first type and renders nothing (so a previous file of the generator is kept there, and removed in Quiet packages)
+	Quiet  []string `json:"quiet,omitempty"`
+	Ignore []string `json:"ignore,omitempty"`
 }
 
 type c5Case struct {
@@ -74,7 +78,25 @@ func genC05(t *rapid.T) c5Case {
 			{"example.com/x/codec.T", "example.com/y/codec.T"}, {"github.com/foo/bar.T", "github.com/other/bar.T"}, {"example.com/a/util.X", "example.com/b/util.X"},
 			{"example.com/y/codec.T", "example.com/x/codec.T"},
 		}).Draw(t, "rotpair")
+		for pi := range c.Mod.Pkgs {
+			switch rapid.IntRange(0, 7).Draw(t, "pkgbehaviour") {
+			case 0:
+				g.Quiet = append(g.Quiet, c.Mod.Pkgs[pi].Dir)
+			case 1:
+				g.Ignore = append(g.Ignore, c.Mod.Pkgs[pi].Dir)
+			}
+			// left-overs of earlier runs: a file of this generator, a file of a generator that no longer runs
+			if rapid.IntRange(0, 2).Draw(t, "stale") == 0 {
+				c.Mod.Pkgs[pi].Other = append(c.Mod.Pkgs[pi].Other, modspec.File{Name: "zz_generated." + n + ".go",
+					Data: fmt.Sprintf("package %s\n\nvar _stale_%s_%d = 0\n", c.Mod.Pkgs[pi].Name, n, pi)})
+			}
+		}
 		c.Gens = append(c.Gens, g)
+	}
+	for pi := range c.Mod.Pkgs {
+		if rapid.IntRange(0, 2).Draw(t, "staleold") == 0 {
+			c.Mod.Pkgs[pi].Other = append(c.Mod.Pkgs[pi].Other, modspec.File{Name: "zz_generated.old.go", Data: fmt.Sprintf("package %s\n\nvar _stale_old_%d = 0\n", c.Mod.Pkgs[pi].Name, pi)})
+		}
 	}
 	switch rapid.IntRange(0, 4).Draw(t, "real") {
 	case 0:
@@ -116,8 +138,34 @@ func genC05(t *rapid.T) c5Case {
 	return c
 }
 
-func (g c5Gen) script(pkgOrder map[string]int) *script.Script {
-	s := &script.Script{Name: g.Name, Mode: g.Mode}
+func (g c5Gen) script(c *c5Case) *script.Script {
+	s := &script.Script{Name: g.Name, Mode: g.Mode, PerType: map[string]script.Action{}}
+	for i := range c.Mod.Pkgs {
+		p := &c.Mod.Pkgs[i]
+		quiet, ignore := false, false
+		for _, d := range g.Quiet {
+			quiet = quiet || d == p.Dir
+		}
+		for _, d := range g.Ignore {
+			ignore = ignore || d == p.Dir
+		}
+		if !quiet && !ignore {
+			continue
+		}
+		pkgLevel, _ := p.Types()
+		var names []string
+		for _, ti := range pkgLevel {
+			names = append(names, ti.Name)
+		}
+		sort.Strings(names)
+		for k, n := range names {
+			a := script.Action{}
+			if ignore && k == 0 {
+				a.Err = "ignore"
+			}
+			s.PerType[c.Mod.PkgPath(p)+"."+n] = a
+		}
+	}
 	var pieces []script.Piece
 	for _, st := range g.State {
 		switch st {
@@ -198,7 +246,7 @@ func oracleC05(c c5Case) error {
 	var scripts []*script.Script
 	for _, g := range c.Gens {
 		globals["gengo:"+g.Name] = []string{""}
-		scripts = append(scripts, g.script(nil))
+		scripts = append(scripts, g.script(&c))
 	}
 	for _, r := range c.Real {
 		globals["gengo:"+r] = []string{""}
